@@ -40,6 +40,15 @@ type c11Input struct {
 	Big int `json:"big,omitempty"`
 	// Special: the unwrapped values come from this set of special floats instead (see c11Special).
 	Special string `json:"special,omitempty"`
+	// Mult: with Big, series i holds 1 + (i*Mult) mod Big records (0 = 7): which series carries which value, and so the
+	// order in which values reach a heap or a sort, differs from one multiplier to the next.
+	Mult int `json:"mult,omitempty"`
+	// Stagger: series i starts 4*i seconds later: over the steps of a range query the vector grows from one series
+	// to all of them (instead of starting complete and thinning out).
+	Stagger bool `json:"stagger,omitempty"`
+	// Typed: the labels a and b reach the engine as JSON values extracted by `| json` (a as a number, b as a string, c
+	// as a boolean), not as string attributes.
+	Typed bool `json:"typed,omitempty"`
 }
 
 // c11Special: values that do not order or do not cancel. sum/avg propagate them by IEEE arithmetic whatever the
@@ -98,8 +107,11 @@ func c11Templates() []c11Template {
 		}
 	}
 	for _, op := range []string{"topk", "bottomk"} {
-		for _, k := range []int{1, 2, 5} {
-			for _, gr := range groupings[:5] {
+		for _, k := range []int{1, 2, 5, 6, 9, 12} {
+			for gi, gr := range groupings[:5] {
+				if k > 5 && gi != 0 && gi != 2 {
+					continue // the larger k: ungrouped and by(a) only
+				}
 				op, k, gr := op, k, gr
 				out = append(out, c11Template{name: fmt.Sprintf("%s(%d)%s", op, k, gr.name), build: func(x refmodel.Expr) refmodel.Expr {
 					return &refmodel.VecAgg{Op: op, Param: ip(k), Grouping: gr.g, X: x}
@@ -141,7 +153,9 @@ func c11Templates() []c11Template {
 		{name: "count without(c)(sum without(c)(sum without(a)))", build: func(x refmodel.Expr) refmodel.Expr {
 			return va("count", g(true, "c"), va("sum", g(true, "c"), va("sum", g(true, "a"), x)))
 		}},
-		{name: "sum by(b)(count by(a,b))", build: func(x refmodel.Expr) refmodel.Expr { return va("sum", g(false, "b"), va("count", g(false, "a", "b"), x)) }},
+		{name: "sum by(b)(count by(a,b))", build: func(x refmodel.Expr) refmodel.Expr {
+			return va("sum", g(false, "b"), va("count", g(false, "a", "b"), x))
+		}},
 		{name: "sum by(c)(sum by(a))", build: func(x refmodel.Expr) refmodel.Expr { return va("sum", g(false, "c"), va("sum", g(false, "a"), x)) }},
 		{name: "sort(sum by(a))", instantOnly: true, build: func(x refmodel.Expr) refmodel.Expr { return va("sort", nil, va("sum", g(false, "a"), x)) }},
 		{name: "sort_desc(max by(b))", instantOnly: true, build: func(x refmodel.Expr) refmodel.Expr { return va("sort_desc", nil, va("max", g(false, "b"), x)) }},
@@ -165,8 +179,12 @@ var c11Tmpl = c11Templates()
 
 func c11Build(in c11Input) ([]mockq.Rec, refmodel.Expr, bool) {
 	var data []mockq.Rec
+	mult := in.Mult
+	if mult == 0 {
+		mult = 7
+	}
 	for i := 0; i < in.Big; i++ {
-		n := 1 + (i*7)%in.Big // distinct counts 1..Big in scrambled order (7 is coprime to the sizes used)
+		n := 1 + (i*mult)%in.Big // distinct counts 1..Big in scrambled order (the multiplier is coprime to the size)
 		labels := []mockq.KV{{K: "a", V: strconv.Itoa(i % 3)}, {K: "b", V: "s" + strconv.Itoa(i)}}
 		for j := 0; j < n; j++ {
 			data = append(data, mockq.Rec{TS: (c09Base+int64(j%9))*sec + int64(i*100+j), Line: "", Labels: labels})
@@ -184,13 +202,38 @@ func c11Build(in c11Input) ([]mockq.Rec, refmodel.Expr, bool) {
 			}
 			labels = append(labels, mockq.KV{K: "v", V: v})
 		}
+		line := ""
+		if in.Typed {
+			// a: number, b: string, c: boolean; the line itself is dropped again by the pipeline
+			parts := []string{}
+			for _, kv := range labels {
+				switch kv.K {
+				case "a":
+					parts = append(parts, `"a":`+kv.V)
+				case "c":
+					parts = append(parts, `"c":true`)
+				default:
+					parts = append(parts, `"`+kv.K+`":"`+kv.V+`"`)
+				}
+			}
+			line = "{" + strings.Join(parts, ",") + "}"
+			labels = nil
+		}
 		for j := 0; j < n; j++ {
-			data = append(data, mockq.Rec{TS: (c09Base+int64(j*3))*sec + int64(i), Line: "", Labels: labels})
+			ts := (c09Base+int64(j*3))*sec + int64(i)
+			if in.Stagger {
+				ts += int64(i) * 4 * sec
+			}
+			data = append(data, mockq.Rec{TS: ts, Line: line, Labels: labels})
 		}
 	}
-	var x refmodel.Expr = &refmodel.RangeAgg{Op: "count_over_time", RangeNS: 10 * sec}
+	var stages []refmodel.Stage
+	if in.Typed {
+		stages = []refmodel.Stage{&refmodel.JSONStage{}, &refmodel.Drop{Items: []refmodel.DKItem{{Label: "msg"}}}}
+	}
+	var x refmodel.Expr = &refmodel.RangeAgg{Op: "count_over_time", RangeNS: 10 * sec, Stages: stages}
 	if in.Unwrap {
-		x = &refmodel.RangeAgg{Op: "sum_over_time", Unwrap: "v", RangeNS: 10 * sec}
+		x = &refmodel.RangeAgg{Op: "sum_over_time", Unwrap: "v", RangeNS: 10 * sec, Stages: stages}
 	}
 	if in.Inner != "" {
 		x = &refmodel.RangeAgg{Op: "max_over_time", Unwrap: "v", RangeNS: 10 * sec, Grouping: c11Inner[in.Inner]}
@@ -270,6 +313,12 @@ func c11Run(r *vkit.Run) {
 						continue
 					}
 					c11Check(r, c11Input{Series: sub, Unwrap: unwrap, Query: t.name, Range: rg, Bound: bound}, nil)
+					if rg && len(sub) >= 2 {
+						c11Check(r, c11Input{Series: sub, Unwrap: unwrap, Query: t.name, Range: true, Bound: 0, Stagger: true}, nil)
+					}
+					if !rg && !strings.Contains(t.name, "(") || strings.HasPrefix(t.name, "topk(2)") {
+						c11Check(r, c11Input{Series: sub, Unwrap: unwrap, Query: t.name, Range: rg, Bound: 0, Typed: true}, nil)
+					}
 					if unwrap {
 						// the range aggregation itself carries a grouping clause the outer ones must respect
 						for _, inner := range []string{"by(a)", "by(a,b)", "without(a)", "without(v,c)", "by()", "without()"} {
@@ -340,7 +389,28 @@ func c11Run(r *vkit.Run) {
 			r.NonTrivial()
 		}
 	}
-	r.Note("bounds", fmt.Sprintf("input vectors: all non-empty subsets (size <=4) of 6 label sets over a in {1,2}, b in {x,y}, optional c, with pairwise distinct values (counts 1,2,3,5 or unwrapped -2.5,0.5,7,-1), plus vectors of 13, 20 and 33 series for sort/topk/bottomk, plus 6 value sets holding NaN / +Inf / -Inf for sum, avg, count (min, max for the infinities) and large close values for stddev / stdvar; %d query templates (7 operators x 9 groupings, topk/bottomk k in {1,2,5} x 5 groupings, sort/sort_desc, 20 nestings up to depth 3); instant and 3-step range; map-order deviation bound %d", len(c11Tmpl), bound))
+	// which series carries which value: every multiplier coprime to the size, under the larger k
+	gcd := func(a, b int) int {
+		for b != 0 {
+			a, b = b, a%b
+		}
+		return a
+	}
+	for _, big := range []int{13, 20, 33} {
+		for m := 1; m < big; m++ {
+			if gcd(m, big) != 1 {
+				continue
+			}
+			idx++
+			if !r.Mine(idx) || r.Stop() {
+				continue
+			}
+			for _, q := range []string{"topk(6)", "bottomk(6)", "topk(9)", "bottomk(9) by(a)", "topk(12)", "bottomk(12)", "topk(5)", "sort"} {
+				c11Check(r, c11Input{Big: big, Query: q, Bound: 0, Mult: m}, nil)
+			}
+		}
+	}
+	r.Note("bounds", fmt.Sprintf("input vectors: all non-empty subsets (size <=4) of 6 label sets over a in {1,2}, b in {x,y}, optional c, with pairwise distinct values (counts 1,2,3,5 or unwrapped -2.5,0.5,7,-1), plus vectors of 13, 20 and 33 series for sort/topk/bottomk (k up to 12; every assignment of the values to the series by a multiplier coprime to the size), vectors that grow over the steps of a range query, labels that are JSON numbers / booleans, plus 6 value sets holding NaN / +Inf / -Inf for sum, avg, count (min, max for the infinities) and large close values for stddev / stdvar; %d query templates (7 operators x 9 groupings, topk/bottomk k in {1,2,5,6,9,12} x up to 5 groupings, sort/sort_desc, 20 nestings up to depth 3); instant and 3-step range; map-order deviation bound %d", len(c11Tmpl), bound))
 }
 
 func c11Replay(r *vkit.Run, v vkit.Violation) *vkit.Violation {
